@@ -211,6 +211,7 @@ pub fn c03(ctx: &mut Ctx, acc: &mut Acc) -> i32 {
     let _ = OUTCOME_CLASSES;
     if ctx.shard == 0 && !ctx.only_fresh() {
         skipped_chunks(acc);
+        adt_module_client(acc);
         position_limits(acc);
     }
     0
@@ -323,6 +324,92 @@ fn skipped_chunks(acc: &mut Acc) {
     // the skipped chunk introduces the name, the sibling cites it
     run(acc, "nested_record_with_header_name_then_sibling", &(OuterNamed { x: 9, n: InnerNamed { a: 1 } }, InnerNamed { a: 3 }), &(old.clone(), InnerNamed { a: 3 }));
     run(acc, "two_records_each_skipping_a_header_name", &vec![OuterNamed { x: 9, n: InnerNamed { a: 1 } }, OuterNamed { x: 9, n: InnerNamed { a: 2 } }], &vec![old.clone(), old.clone()]);
+}
+
+/// A client of the public `adt` module: a codec written by hand with `AdtSerializer` / `AdtDeserializer` and its own
+/// `AdtMetadata` (what the derive generates, minus the defaults — the low-level API lets a field be added without one).
+/// Written and read across versions against derived definitions of the same history: same bytes as the derived codec,
+/// values when the data has the field, the two dedicated errors when it has not.
+fn adt_module_client(acc: &mut Acc) {
+    use desert::adt::{AdtDeserializer, AdtMetadata, AdtSerializer};
+    use desert::{BinaryCodec, BinaryDeserializer, BinaryOutput, BinarySerializer, DeserializationContext, Evolution, SerializationContext};
+    #[derive(Debug, PartialEq, Clone)]
+    struct Client {
+        a: u32,
+        b: String,
+        c: Option<u8>,
+    }
+    fn metadata() -> &'static AdtMetadata {
+        static M: std::sync::OnceLock<AdtMetadata> = std::sync::OnceLock::new();
+        M.get_or_init(|| AdtMetadata::new(vec![Evolution::InitialVersion, Evolution::FieldAdded { name: "b".to_string() }, Evolution::FieldAdded { name: "c".to_string() }]))
+    }
+    impl BinarySerializer for Client {
+        fn serialize<O: BinaryOutput>(&self, context: &mut SerializationContext<O>) -> desert::Result<()> {
+            let mut ser = AdtSerializer::new(metadata(), context);
+            ser.write_field("a", &self.a)?;
+            ser.write_field("b", &self.b)?;
+            ser.write_field("c", &self.c)?;
+            ser.finish()
+        }
+    }
+    impl BinaryDeserializer for Client {
+        fn deserialize(context: &mut DeserializationContext<'_>) -> desert::Result<Self> {
+            use desert::BinaryInput;
+            let stored_version = context.read_u8()?;
+            let mut de = if stored_version == 0 { AdtDeserializer::new_v0(metadata(), context)? } else { AdtDeserializer::new(metadata(), context, stored_version)? };
+            Ok(Client { a: de.read_field("a", None)?, b: de.read_field("b", None)?, c: de.read_optional_field("c", None)? })
+        }
+    }
+    #[derive(BinaryCodec, Debug, PartialEq, Clone)]
+    struct V0 {
+        a: u32,
+    }
+    #[derive(BinaryCodec, Debug, PartialEq, Clone)]
+    #[evolution(FieldAdded("b", String::new()))]
+    struct V1 {
+        a: u32,
+        b: String,
+    }
+    #[derive(BinaryCodec, Debug, PartialEq, Clone)]
+    #[evolution(FieldAdded("b", String::new()), FieldAdded("c", None))]
+    struct V2 {
+        a: u32,
+        b: String,
+        c: Option<u8>,
+    }
+    #[derive(BinaryCodec, Debug, PartialEq, Clone)]
+    #[evolution(FieldAdded("b", String::new()), FieldAdded("c", None), FieldAdded("d", 0u64))]
+    struct V3 {
+        a: u32,
+        b: String,
+        c: Option<u8>,
+        d: u64,
+    }
+    let mut verdict = |what: &str, ok: bool, got: String| {
+        acc.case(Some(refmodel::rng::fnv64_str(what)));
+        if ok {
+            acc.count(&format!("adt_module_client:{what}:as_documented"));
+        } else {
+            acc.violation(format!("C03|adt_module_client|{what}"), J::obj().with("check", J::s("C03")).with("mode", J::s("content")).with("what", J::s(what)).with("got", J::s(got)));
+        }
+    };
+    for (a, b, c) in [(7u32, "x".to_string(), Some(3u8)), (u32::MAX, "é".repeat(70), None), (0, String::new(), Some(0))] {
+        let client = Client { a, b: b.clone(), c };
+        let (r, _) = sbase::monitored(None, || {
+            let mine = desert::serialize_to_byte_vec(&client).map_err(|e| sbase::classify(&e))?;
+            let derived = desert::serialize_to_byte_vec(&V2 { a, b: b.clone(), c }).map_err(|e| sbase::classify(&e))?;
+            let back: Client = desert::deserialize(&mine).map_err(|e| sbase::classify(&e))?;
+            let newer: Client = desert::deserialize(&desert::serialize_to_byte_vec(&V3 { a, b: b.clone(), c, d: 99 }).map_err(|e| sbase::classify(&e))?).map_err(|e| sbase::classify(&e))?;
+            let as_v1: V1 = desert::deserialize(&mine).map_err(|e| sbase::classify(&e))?;
+            Ok((mine == derived, back == client, newer == client, as_v1 == V1 { a, b: b.clone() }))
+        });
+        verdict("same_bytes_and_round_trips_as_the_derived_codec", matches!(r, Call::Ok((true, true, true, true))), format!("{:?}", r.ok()));
+        let from = |bytes: desert::Result<Vec<u8>>| -> Call<Client> { sbase::monitored(None, || desert::deserialize::<Client>(&bytes.map_err(|e| sbase::classify(&e))?).map_err(|e| sbase::classify(&e))).0 };
+        let r0 = from(desert::serialize_to_byte_vec(&V0 { a }));
+        verdict("required_field_without_default_missing_from_older_data", matches!(&r0, Call::Err(e) if e.variant == "FieldWithoutDefaultValueIsMissing" && e.payload == "b"), r0.class());
+        let r1 = from(desert::serialize_to_byte_vec(&V1 { a, b: b.clone() }));
+        verdict("optional_field_without_default_missing_from_older_data", matches!(&r1, Call::Err(e) if e.variant == "DeserializationFailure" && e.payload.contains('c')), r1.class());
+    }
 }
 
 fn got_render(c: &Call<Val>) -> String {
